@@ -28,6 +28,15 @@ try_acquire / release the library issues for the operation - k-th acquisition in
 repeats, preempting and blocked ones; every release on every exit path, incl. the releases made
 by an ending itself - is a choice point {default, external ending right before the lock step,
 external ending right after it (lock changed, controller bookkeeping not yet)}.
+Re-registration mid-operation (an external event like the endings, offered at every choice point that offers
+endings: every checkpoint / work / validate callback, every lock step before and after, manual driver between any
+two steps and before complete): a requested resource id is registered again through the public
+system.register_resource, with the same and with the toggled preemption flag - before the operation acquires it,
+while it holds it (booked or granted-not-yet-booked), after it released it.  What the call does to the registered
+resource (exchanges the lock, keeps the holder, ignores or rejects the call) is observed, not prescribed; the exit
+state is judged: for a re-registered resource the final state must be what the re-registration left or free, never
+owned by the operation; which other resources were obtained is then taken from the observed lock grants; the twin of
+the follow-up sees the same re-registrations.
 External endings: kill_operation, watchdog (virtual clock jumps an hour, run_maintenance),
 shutdown. Whether the operation is LIVE when an ending is issued is decided from the history of
 calls (driver call not returned, no ending issued before), not from the controller's tables;
@@ -235,6 +244,9 @@ def run_scenario(scn, ch):
     env.lock_steps = {"acquire": 0, "release": 0}
     env.inflight = None  # lock granted inside the current lock step, not yet booked by the controller
     env.ended = False  # an external ending has been issued to the live operation (the OBSERVER's history of calls)
+    env.saw_blocked = False  # a lock step of the operation answered BLOCKED
+    env.rereg = {}  # resource id -> state of the REGISTERED resource observed right after the harness re-registered it (last time)
+    env.rereg_calls = []  # (resource id, allow_preemption) of every re-registration call that returned, in order
     wd = scn.get("wd", "max")
     env.clock = clock = vclock.VClock()
     vclock.use(clock)
@@ -267,6 +279,28 @@ def run_scenario(scn, ch):
                 f"({ {r: lock_state(system)[r] for r in owned} }) for request list {req}")
         if OP in ctl.active_operations:
             bad(f"still-active:{where}", f"after {text} returned '{OP}' is still in active_operations")
+
+    # re-registration of a requested resource id through the public system.register_resource, an external event like
+    # the endings: (resource, same preemption flag | toggled flag), offered at every choice point that offers endings
+    RR = [(r, t) for r in sorted(set(req)) for t in (False, True)]
+
+    def reregister(i, where):
+        rid, toggle = RR[i]
+        flag = pre[rid] != toggle
+        env.faults.append(f"rereg:{rid}")
+        try:
+            system.register_resource(rid, allow_preemption=flag)
+        except Exception:  # noqa: BLE001 - rejected: the statement does not say it must be accepted
+            pass
+        else:
+            pre[rid] = flag
+            env.rereg_calls.append((rid, flag))
+        # whatever the call did to the registered resource (replaced it by a free one, kept the holder, ignored or
+        # rejected the call) is the environment's own touch: observed here, the oracle judges the exit state
+        st = lock_state(system).get(rid)
+        env.rereg[rid] = st
+        if st is not None and st[0] == OP:
+            env.owned_ever.add(rid)
 
     def external(i, where):
         name = EXT[i]
@@ -308,10 +342,18 @@ def run_scenario(scn, ch):
         rid = lock.resource_id
         k = env.lock_steps[kind]
         env.lock_steps[kind] = k + 1
-        c = ch.pick(1 + 2 * len(EXT), f"{kind}:{k}:{rid}") if mode != "manual" else 0
+        ne = 1 + 2 * len(EXT)
+        c = ch.pick(ne + 2 * len(RR), f"{kind}:{k}:{rid}") if mode != "manual" else 0
+        rr = c - ne if c >= ne else None  # re-registration right before (even) / right after (odd) the lock step
+        if rr is not None:
+            c = 0
         if 1 <= c <= len(EXT):
             external(c - 1, f"right before {kind} step #{k} on {rid}")
+        if rr is not None and rr % 2 == 0:
+            reregister(rr // 2, f"right before {kind} step #{k} on {rid}")
         got = do()
+        if kind == "acquire" and got == LockResult.BLOCKED:
+            env.saw_blocked = True
         fresh = kind == "acquire" and got in (LockResult.ACQUIRED, LockResult.PREEMPTED)
         if kind == "acquire" and (fresh or got == LockResult.REENTRANT):
             env.owned_ever.add(rid)
@@ -326,10 +368,13 @@ def run_scenario(scn, ch):
                 external(c - 1 - len(EXT), f"inside {kind} step #{k} on {rid}, after the lock answered {got}")
             finally:
                 env.inflight = outer
+        if rr is not None and rr % 2 == 1:
+            reregister(rr // 2, f"inside {kind} step #{k} on {rid}, after the lock answered {got}")
         return got
 
     for lock in ctl.resources.values():
         lock.probe = probe
+    env.reregister, env.n_rereg = reregister, len(RR)
 
     def fix_created(ctx):
         if ctx.operation_id == OP and not getattr(ctx, "_c14_fixed", False):
@@ -342,7 +387,10 @@ def run_scenario(scn, ch):
                 return orig(ctx)
             fix_created(ctx)
             nb = 3 + len(EXT)
-            c = ch.pick(nb + len(CP_MORE), f"cp:{phase}")
+            c = ch.pick(nb + len(CP_MORE) + len(RR), f"cp:{phase}")
+            if c >= nb + len(CP_MORE):
+                reregister(c - nb - len(CP_MORE), f"cp:{phase}")
+                c = 0
             more = CP_MORE[c - nb] if c >= nb else None
             if c == 1 or more in ("none", "zero"):
                 env.faults.append(f"cp-false:{phase}")
@@ -372,14 +420,19 @@ def run_scenario(scn, ch):
         env.work_runs += 1
         if env.work_runs > 1:
             bad("work-ran-twice", f"work_fn entered {env.work_runs} times")
-        missing = sorted(r for r in set(req) if ctl.resources[r].owner != OP)
+        # (a resource id the environment re-registered in this run is exempt: what "holds" means after the registered
+        # lock was exchanged under the operation is not defined by the statement)
+        missing = sorted(r for r in set(req) if ctl.resources[r].owner != OP and r not in env.rereg)
         if missing:
             why = ("after-" + env.ext[-1]) if env.ext else "no-external-ending"
             bad(f"work-without-resources:{why}", f"work_fn entered while {missing} of request {req} are not owned by "
                 f"'{OP}' (owners { {r: ctl.resources[r].owner for r in missing} }, endings so far {env.ext})")
         owned = sorted(r for r in set(req) if ctl.resources[r].owner == OP)
         n = 2 + len(EXT) + (1 if owned else 0)
-        c = ch.pick(n + len(WORK_MORE), "work")
+        c = ch.pick(n + len(WORK_MORE) + len(RR), "work")
+        if c >= n + len(WORK_MORE):
+            reregister(c - n - len(WORK_MORE), "work")
+            c = 0
         more = WORK_MORE[c - n] if c >= n else None
         if c == 1 or more in RAISES:
             env.faults.append("work-raise")
@@ -401,7 +454,10 @@ def run_scenario(scn, ch):
         if not env.work_returned:
             bad("validate-before-work-completed", "validate_fn entered before work_fn returned")
         nb = 3 + len(EXT)
-        c = ch.pick(nb + len(VALIDATE_MORE), "validate")
+        c = ch.pick(nb + len(VALIDATE_MORE) + len(RR), "validate")
+        if c >= nb + len(VALIDATE_MORE):
+            reregister(c - nb - len(VALIDATE_MORE), "validate")
+            c = 0
         more = VALIDATE_MORE[c - nb] if c >= nb else None
         if c == 1 or more in FALSY:
             env.faults.append("validate-false")
@@ -441,13 +497,17 @@ def run_scenario(scn, ch):
     # ---- exit path name (for keys) and final judgement
     if env.ext:
         exit_path = env.ext[-1]
-    elif [f for f in env.faults if f not in ("nested-preemptor", "maintenance") and not f.startswith("retry:")]:
+    elif [f for f in env.faults if f not in ("nested-preemptor", "maintenance") and not f.startswith(("retry:", "rereg:"))]:
         exit_path = [f for f in env.faults if f not in ("nested-preemptor", "maintenance")
-                     and not f.startswith("retry:")][-1].split(":")[0]
+                     and not f.startswith(("retry:", "rereg:"))][-1].split(":")[0]
+    elif env.rereg:  # (the reference prediction describes an undisturbed acquisition loop)
+        exit_path = "commit" if success else ("blocked" if env.saw_blocked else "other-failure")
     else:
         snap = env.acq_snapshot or env.pre_state
         _own, blocked_at = predict_obtained(req, prio, snap, pre)
         exit_path = "blocked" if blocked_at is not None else ("commit" if success else "other-failure")
+    if env.rereg:
+        exit_path += "+reregistered"
     env.exit_path = exit_path
     check_ended(exit_path, f"the {mode} driver call (exit path {exit_path})")
 
@@ -455,11 +515,25 @@ def run_scenario(scn, ch):
     obtained, _b = predict_obtained(req, prio, snap, pre)
     if mode == "manual" and env.manual_obtained is not None:
         obtained = set(env.manual_obtained)  # the manual driver saw every acquire result itself
+    elif env.rereg:
+        # the reference prediction describes an undisturbed acquisition loop; in a run in which the environment
+        # exchanged a registered lock, what the operation obtained is what the lock steps were seen to grant
+        obtained = set(env.owned_ever)
     final = lock_state(system)
     expected = {}
     for r in RES:
         if "shutdown" in env.ext:
             expected[r] = (None, 0, 0)  # every operation was ended
+        elif r in env.rereg:
+            # re-registered by the environment during the run: grants on the library's new lock object are not
+            # observable, so the exit state is either what the re-registration left (never obtained afterwards:
+            # untouched) or free (obtained and released) -- never owned by the operation (leak clause above)
+            after = env.rereg[r]
+            expected[r] = final[r] if final[r] in (after, (None, 0, 0)) and final[r][0] != OP else (None, 0, 0)
+            if final[r] == (None, 0, 0):
+                obtained = obtained | {r}
+            else:
+                obtained = obtained - {r}
         elif r in obtained and env.not_yet is not None and r in env.not_yet and final[r] == env.pre_state[r]:
             # ended before it was granted this one: the statement allows the driver to stop there
             # (never obtained) as well as to carry on and release at the end
@@ -507,8 +581,10 @@ def _manual_driver(env, system, req, prio, work_fn, vfn, external):
 
     def between(where):
         """external ending between two API calls; True = the operation was ended, caller stops"""
-        c = ch.pick(1 + len(EXT), f"between:{where}")
-        if c:
+        c = ch.pick(1 + len(EXT) + env.n_rereg, f"between:{where}")
+        if c > len(EXT):
+            env.reregister(c - 1 - len(EXT), where)  # not an ending: the caller goes on
+        elif c:
             external(c - 1, where)
         return env.ended  # (a maintenance call that spares the operation is not an ending: the caller goes on)
 
@@ -534,6 +610,7 @@ def _manual_driver(env, system, req, prio, work_fn, vfn, external):
     for i, r in enumerate(req):
         got = ctl.acquire_resource(ctx, r)
         if got == LockResult.BLOCKED:
+            env.saw_blocked = True
             ctl.abort_operation(ctx, reason=f"blocked on {r}")
             return False
         env.manual_obtained.add(r)
@@ -568,7 +645,10 @@ def _manual_driver(env, system, req, prio, work_fn, vfn, external):
     if not advance(ctx, "G2"):
         ctl.abort_operation(ctx, reason="G2 checkpoint")
         return False
-    c = ch.pick(2 + len(EXT), "finish")
+    c = ch.pick(2 + len(EXT) + env.n_rereg, "finish")
+    if c >= 2 + len(EXT):
+        env.reregister(c - 2 - len(EXT), "before-complete")
+        c = 0
     if c == 1:
         env.faults.append("caller-abort")
         ctl.abort_operation(ctx, reason="caller changed its mind")
@@ -642,9 +722,18 @@ def _scenarios(full, prios, variants):
 def system_canon(system):
     ctl = system.controller
     res = tuple((r, l.owner, l.hold_count, l.owner_priority, l.allow_preemption) for r, l in sorted(ctl.resources.items()))
-    act = tuple((o, c.priority, tuple(sorted(c.acquired_resources))) for o, c in sorted(ctl.active_operations.items()))
+    # (per tracked resource: is the lock object the operation tracks the REGISTERED one?  After a re-registration it
+    # need not be, and releasing the one does not free the other.)
+    act = tuple((o, c.priority, tuple(sorted(_tracked(ctl, c)))) for o, c in sorted(ctl.active_operations.items()))
     edges = tuple((w, tuple(d)) for w, d in ctl.dependency_graph.edges.items())
     return (res, act, edges)
+
+
+def _tracked(ctl, c):
+    acq = c.acquired_resources
+    if not hasattr(acq, "items"):
+        return [(r, True) for r in acq]
+    return [(r, l is ctl.resources.get(r)) for r, l in acq.items()]
 
 
 def explore_chunk(args):
@@ -656,6 +745,7 @@ def explore_chunk(args):
     finals = {}  # canon of (real system, expected twin) -> representative follow-up root
     maxpicks = 0
     for scn in scns:
+        scn_rank = repr(sorted(scn.items()))
         for ch, env in choice.explore(lambda c, s=scn: run_scenario(s, c), max_dev=max_dev, horizon=200):
             execs += 1
             if isinstance(env, tuple):
@@ -672,8 +762,11 @@ def explore_chunk(args):
                 continue
             key = (system_canon(env.system), tuple(sorted(env.expected.items())), "shutdown" in env.ext,
                    scn.get("wd"), bool(scn.get("history")))
-            if key not in finals:
-                finals[key] = case
+            # representative: a run without re-registration if there is one, then the smallest answer list / scenario
+            # (independent of how the scenarios are chunked and rotated)
+            rank = (bool(env.rereg), case["choices"], scn_rank)
+            if key not in finals or rank < finals[key][0]:
+                finals[key] = (rank, case)
     return execs, viols, outcomes, finals, maxpicks
 
 
@@ -708,6 +801,11 @@ class Followup:
         hold = full_hold(scn)
         keep = set() if "shutdown" in env.ext else {r for r in RES if env.expected[r][0] is not None}
         add_holders_twin(twin, st.clock, hold, keep, alive="shutdown" not in env.ext)
+        for rid, flag in env.rereg_calls:  # the environment's own re-registrations happen in that world as well
+            try:
+                twin.register_resource(rid, allow_preemption=flag)
+            except Exception:  # noqa: BLE001 - rejected there: any consequence shows in the differential comparison
+                pass
         st.twin = twin
         return st
 
@@ -795,40 +893,48 @@ def run(ctx):
         viols += v
         ctx.outcomes |= outs
         maxpicks = max(maxpicks, mp)
-        for k, case in fin.items():
+        for k, rc in fin.items():
             # representative must not depend on seed rotation: keep the smallest case
-            if k not in finals or repr(case) < repr(finals[k]):
-                finals[k] = case
+            if k not in finals or rc[0] < finals[k][0]:
+                finals[k] = rc
     # deterministic first case per key regardless of rotation
     order = {"oneshot": 0, "manual": 1, "cell": 2}
     viols.sort(key=lambda x: (x[0], len(x[2]["scn"]["req"]), sum(1 for c, _l in x[2]["choices"] if c),
                               order[x[2]["scn"]["mode"]], repr(x[2])))
     for k, w, case in viols:
         ctx.report(k, w, {"phase": "scenario", **case})
-    roots = [finals[k] for k in sorted(finals, key=repr)]
+    # final states reached without any re-registration / reached only through a re-registration
+    roots = [finals[k][1] for k in sorted(finals, key=repr) if not finals[k][0][0]]
+    roots_rr = [finals[k][1] for k in sorted(finals, key=repr) if finals[k][0][0]]
     n_outcomes = len(ctx.outcomes)  # scenario outcomes only (follow-up observations are added below)
     for r in roots[:3]:
         ctx.sample(r)
     depth = 2 if ctx.tier == "quick" else 3
     col = _Collect(ctx)
-    fres = explore.explore(Followup(roots), col, depth, label="followup")
+    fres = explore.explore(Followup(roots), col, depth, label="followup", validate_canon=100)
+    fres_rr = explore.explore(Followup(roots_rr), col, depth - 1, label="followup_rereg", validate_canon=100)
     col.flush(ctx)
     ctx.stats["scenarios"] = len(scns)
     ctx.stats["executions"] = execs
     ctx.stats["distinct_final_states"] = len(roots)
+    ctx.stats["distinct_final_states_only_with_reregistration"] = len(roots_rr)
+    ftrans = fres["transitions"] + fres_rr["transitions"]
     ctx.coverage.update(
-        states=len(roots) + fres["states"],
-        transitions=execs + fres["transitions"],
-        traces_validated_against_impl=execs + fres["transitions"],
-        evaluations=execs + fres["transitions"],
+        states=len(roots) + len(roots_rr) + fres["states"] + fres_rr["states"],
+        transitions=execs + ftrans,
+        traces_validated_against_impl=execs + ftrans,
+        evaluations=execs + ftrans,
         distinct_nontrivial=n_outcomes,
         rule="engine B: every scenario (mode x request list x priority x validate x holder configuration of the requested "
              f"resources x system variant: watchdog configuration / history of the same id / cell options) x every answer sequence with <= {max_dev} non-default answers at the checkpoint / work / validate "
              "/ between-steps / lock-step (one-shot modes: every try_acquire and release issued for the operation x "
-             "{ending right before, ending right after} x {kill, watchdog, shutdown}) choice points, each executed on a fresh real system; distinct_nontrivial = distinct "
+             "{ending right before, ending right after} x {kill, watchdog, shutdown}) choice points, at each of which a "
+             "requested resource id may also be re-registered through system.register_resource (same / toggled preemption "
+             "flag; at lock steps right before and right after), each executed on a fresh real system; distinct_nontrivial = distinct "
              "(mode, exit path, success, work runs, validate runs, final lock table) outcomes. engine A: BFS to depth "
              f"{depth} of further operations from every distinct (final system state, expected world) pair, each step "
-             "compared with a twin system on which the operation never ran",
+             "compared with a twin system on which the operation never ran; final states reached only through a "
+             f"re-registration: the same to depth {depth - 1}",
         exhaustive=True,
         deviation_bound=max_dev,
         request_lists="all 40 lists over r1..r3 of length 0..3 for priorities {0,5} on the plain system variant; one list "
@@ -838,6 +944,7 @@ def run(ctx):
         scenario_executions=execs,
         max_choice_points_in_one_run=maxpicks,
         followup=fres,
+        followup_after_reregistration=fres_rr,
     )
     ctx.assumptions += [
         "single-threaded: an external ending (kill / watchdog / shutdown) reaches a running one-shot operation only from "
@@ -855,6 +962,11 @@ def run(ctx):
         "quick tier: request lists up to renaming of resources, at most 1 injected fault/ending per run; thorough: all "
         "lists (plain system variant, priorities 0 and 5; the other variants and priority 9 up to renaming), at most 2",
         "ResourceLock.waiting_list residue and holder priority boosts are not part of the judged state",
+        "re-registration mid-operation: the effect of system.register_resource on a known id is observed, not prescribed; "
+        "in such a run the 'work holds all requested resources' clause exempts the re-registered id, the obtained set is "
+        "the set of observed lock grants (not the reference prediction), the re-registered resource must end as the "
+        "re-registration left it or free, and the follow-up from final states only reachable that way is one level "
+        "shallower; the library's new lock object is not a probe lock, so its lock steps are not choice points",
     ]
 
 
@@ -864,6 +976,7 @@ class _Collect:
 
     def __init__(self, ctx):
         self.seed, self.outcomes, self.stats, self.sample = ctx.seed, ctx.outcomes, ctx.stats, ctx.sample
+        self.note, self.defer_harness_error = ctx.note, ctx.defer_harness_error
         self.buf = []
 
     def report(self, key, what, case):
